@@ -78,30 +78,19 @@ theorem chunk_fatal (n : Nat) (l : List α) (E : Nat) (rest : List (Ev α)) :
 
 /-- the same reading for every other single-source combinator is its `s_*_denotes` theorem (C07)
 instantiated with `t := .fail E`: the spec functions (`mapS`, `filterS`, `whileS`, `firstTermS`,
-`chunkGoS`, `flattenS`, `joinS`) leave a failure term untouched unless the combinator has already ended. -/
-theorem map_fatal (f : α → Except Err β) (hf : ∀ a e, f a = .error e → e.soft = false)
-    {m : SM σ α} {cost : σ → Nat} {s : σ} {L : List (α × Nat)} {E : Err}
-    (h : SDen Err.soft m cost s L (.fail E)) (hok : ∀ p ∈ L, ∃ b, f p.1 = .ok b) :
+`chunkGoS`, `flattenS`, `joinS`, `runsGoS`) leave a failure term untouched unless the combinator has
+already ended. For `Map`: if the callback succeeds on every item before the failure, all their images
+are delivered and then `E` itself. -/
+theorem map_fatal (f : α → Except Err β) (L : List (α × Nat)) (E : Err) (hok : ∀ p ∈ L, ∃ b, f p.1 = .ok b) :
     (mapS f L (.fail E)).2 = .fail E ∧ (mapS f L (.fail E)).1.length = L.length := by
   induction L with
   | nil => exact ⟨rfl, rfl⟩
   | cons p L ih =>
     obtain ⟨a, c⟩ := p
     obtain ⟨b, hb⟩ := hok (a, c) (by simp)
-    have hh : SDen Err.soft m cost s ((a, c) :: L) (.fail E) := h
+    have := ih (fun p hp => hok p (by simp [hp]))
     simp only [mapS, hb, List.length_cons]
-    -- the tail: any state denoting L works for the arithmetic facts, which do not depend on the state
-    have ht : (mapS f L (.fail E)).2 = .fail E ∧ (mapS f L (.fail E)).1.length = L.length := by
-      clear ih hh h
-      induction L with
-      | nil => exact ⟨rfl, rfl⟩
-      | cons q L ih2 =>
-        obtain ⟨a2, c2⟩ := q
-        obtain ⟨b2, hb2⟩ := hok (a2, c2) (by simp)
-        have := ih2 (fun p hp => hok p (by simp at hp ⊢; rcases hp with h | h <;> simp [h]))
-        simp only [mapS, hb2, List.length_cons]
-        exact ⟨this.1, by rw [this.2]⟩
-    exact ⟨ht.1, by rw [ht.2]⟩
+    exact ⟨this.1, by rw [this.2]⟩
 
 /-- **`C_callback_error`**: a callback failing with `E` on some item: `Map` / `Filter` / `While`
 deliver the outputs of the items before it and then `E` itself (never the end, another error, or
